@@ -266,7 +266,11 @@ class _ReconnectionHandler(object):
             log.debug("Reconnection handler was cancelled before starting")
             return
 
-        first_delay = next(self.schedule)
+        try:
+            first_delay = next(self.schedule)
+        except StopIteration:
+            log.debug("Reconnection schedule allows no attempts; not reconnecting")
+            return
         self.scheduler.schedule(first_delay, self.run)
 
     def run(self):
